@@ -109,6 +109,10 @@ CHECKS["C36"] = ("exploration", "Go race detector (-race build of the worker and
     "The -race build re-runs slices of the workloads of C10-C12, C16, C18-C20, C25-C29 and C34 with their hook-point delays and in-process fan-out rounds (application goroutines changing values/attributes/adding nodes, auto-reconnecting clients with concurrent requests, subscribe/cancel loops, NodeMonitor add/remove, a server-side channel drop); every race report with a gopcua frame is a finding keyed by its site pair.",
     "sees only executed interleavings; socket I/O between two accesses hides races (compensated by the fan-out rounds and hook delays)", "3/C36")
 
+CHECKS["C19"] = ("exploration", "timeout monitor with forced hand-over races: scripted server withholding / timing answers, hook points parking the timed-out caller and the dispatcher, heartbeat-counted durations, pending-slot accessor and post-scenario delivery oracle",
+    "Withheld answers, answers within +-20 ms of the caller's timer, forced races (caller parked after its timer fired or its context ended, then the answer arrives; dispatcher parked after taking the handler; the same for a renewal's OpenSecureChannel answer) and requests cancelled before they were written; un-forced calls must return within 3 x (timeout + leniency) heartbeats, nothing may stay blocked, no handler slot may remain and 10 later requests must still complete.",
+    "heartbeat clock (<= elapsed ms); hook points only between critical sections", "3/C19")
+
 NOT_YET = {}
 
 
